@@ -201,7 +201,7 @@ def work_columns(chunk, version):
 # ---------- structures built by different API routes ----------
 def structures(version):
     S = []
-    V = {'c': ('s', 'x y', True), 'b': ('s', 'bare', False), 'n': ('n', '-1.25e3(7)'), 'u': ('u',), 'a': ('a',),
+    V = {'c': ('s', 'x y', True), 'b': ('s', 'bare', False), 'n': ('n', '-1.25e3(7)'), 'N': ('nq', '0.50(2)'), 'u': ('u',), 'a': ('a',),
          'l': ('l', [('s', 'a', False), ('n', '2'), ('u',), ('l', [('s', 'deep', True), ('t', [('k', ('a',))])])]),
          't': ('t', [('key one', ('s', 'v', False)), ('', ('u',)), ("it's", ('l', [])), ('a"b', ('t', []))]), 'e': ('s', '', True),
          'm': ('s', 'line one\nline two', True), 'q': ('s', "both ' and \"", True), 'x': ('s', ';semi', False)}
